@@ -248,6 +248,30 @@ func runC10(c *Ctx) {
 		}
 	}
 
+	// ---- C10.N
+	c.Rule("C10.N", "the session cache is built with the configured name, lifetime, size and test override", 5)
+	if f := c.need(p, "C10.N", "agent/sessions.NewCache"); f != nil {
+		if as := AllocsOf(f, "agent/sessions.Cache"); len(as) == 1 {
+			for fld, idx := range map[string]int{"sessionCookieName": 0, "sessionCookieTimeout": 1, "disableSSLForTest": 3} {
+				if v, ok := LiteralField(as[0], fld); ok {
+					c.PathIs("C10.N", "NewCache:"+fld, p, as[0].Pos(), v, "Cache."+fld, P(f, idx))
+				} else {
+					c.Bad("C10.N", "NewCache:"+fld, p, as[0].Pos(), "field not set")
+				}
+			}
+			if ln := c.UniqueCall("C10.N", p, f, false, "github.com/golang/groupcache/lru.New"); ln != nil {
+				c.ArgIs("C10.N", "NewCache:lru-size", p, ln, 0, "the LRU holds the configured number of sessions", P(f, 2))
+			}
+		}
+	}
+	if m := p.Func("agent.main"); m != nil {
+		if nc := c.UniqueCall("C10.N", p, m, false, ModPath+"/agent/sessions.NewCache"); nc != nil {
+			a := CallOf(nc).Args
+			ok := PathOf(a[0]) == "**global:sessionCookieName" && PathOf(a[1]) == "**global:sessionCookieTimeout" && PathOf(a[2]) == "**global:sessionCookieCacheLimit" && PathOf(a[3]) == "**global:disableSSLForTest"
+			c.Check("C10.N", "main:cache-from-flags", p, nc.Pos(), ok, "NewCache receives the four session flags in their roles", "NewCache is not called with (-session-cookie-name, -session-cookie-timeout, -session-cookie-cache-limit, -disable-ssl-for-test) in these roles")
+		}
+	}
+
 	// ---- C10.R
 	c.Rule("C10.R", "the session cookie never reaches the backend; jars and cookie URL are the caller's own", 19)
 	if rs := c.need(p, "C10.R", "agent/sessions.(*sessionHandler).restoreSession"); rs != nil {
